@@ -954,6 +954,20 @@ func (r *PipelineRunner) cancelJobInternal(id uuid.UUID) error {
 	if job.Start == nil {
 		job.markAsCanceled()
 
+		// A canceled job must not occupy a slot on the wait list or block jobs queued behind it
+		if job.startTimer != nil {
+			job.startTimer.Stop()
+			job.startTimer = nil
+		}
+		waitList := r.waitListByPipeline[job.Pipeline]
+		for i, queuedJob := range waitList {
+			if queuedJob == job {
+				r.waitListByPipeline[job.Pipeline] = append(waitList[:i:i], waitList[i+1:]...)
+				break
+			}
+		}
+		r.startJobsOnWaitList(job.Pipeline)
+
 		log.
 			WithField("component", "runner").
 			WithField("pipeline", job.Pipeline).
